@@ -564,6 +564,6 @@ def run(res, tier):
                 "a parts record or a non-empty path")
     std.run_standard(res, PID, tier, area="ftp", build_impl=impl, gen_cases=gen_cases, oracle=oracle,
                      corr_name="FtpModel vs src/ftp/Parsing.cc, src/clients/FtpGateway.cc (ftpListParseParts)",
-                     gens=["ftp", "ftpsrv"], n_quick=40000, n_thorough=500000, seed_salt=40, mutate=mutate,
+                     gens=["ftp", "ftpsrv"], n_quick=32000, n_thorough=500000, seed_salt=40, mutate=mutate,
                      kind_fn=kind,
                      nontrivial_fn=lambda c, o: o.startswith(("ok", "parts")) or (c.startswith("unq") and o != "-"))
